@@ -40,6 +40,7 @@ func genScript(t *rapid.T, g scriptGenOpts) Script {
 	s.OptReuse = rapid.IntRange(0, 3).Draw(t, "optreuse") == 0
 	s.RegAllBidi = rapid.IntRange(0, 5).Draw(t, "regallbidi") == 0
 	s.OneRecv = rapid.IntRange(0, 2).Draw(t, "onerecv") == 0
+	s.PreSendHdr = rapid.IntRange(0, 4).Draw(t, "presendhdr") == 0
 	s.Wrap = rapid.SampledFrom([]string{"", "", "", "", "u", "s", "us"}).Draw(t, "wrap")
 	s.Chunked = rapid.IntRange(0, 4).Draw(t, "chunked") == 0
 	s.RespWithErr = rapid.IntRange(0, 2).Draw(t, "respwitherr") == 0
@@ -65,9 +66,6 @@ func genScript(t *rapid.T, g scriptGenOpts) Script {
 		s.Final = genPlainErr(t, "final")
 	} else {
 		s.Final = genErr(t, "final")
-		if len(s.Final.Details) > 0 && sanitizeMsg(string(s.Final.Msg)) != string(s.Final.Msg) {
-			s.Final.Details = nil // see DESIGN: the reference cannot encode details next to an invalid-UTF-8 message
-		}
 	}
 	drained := s.RecvN == -1
 	maxOps := 8
